@@ -91,7 +91,8 @@ def run(chk, tier):
     res = common.vh(["perm-bulk", "--n", 10], binname="c13")  # builds; smoke
     permlog = os.path.join(common.OUT, "c13perm.ndjson")
     nperm = 320 if thorough else 40
-    rec = common.vh(["perm-record", "--out", permlog, "--n", nperm, "--layers", 600 if thorough else 50], binname="c13")[-1]
+    rec = common.vh(["perm-record", "--out", permlog, "--n", nperm, "--layers", 600 if thorough else 50,
+                     "--carry-layers", 400 if thorough else 48, "--carry-chains", 40 if thorough else 8], binname="c13")[-1]
     rows = common.read_ndjson(permlog)
     chk.sample({"perm_event": _brief(next(e for e in rows if e["op"] == "real")),
                 "input_words": _words(rows[0]["in"])})
@@ -117,6 +118,8 @@ def run(chk, tier):
             raise ToolError("the harness's textbook permutation (or the constants snapshot) is rejected by TLC at event %d (%s): "
                             "the oracle itself is inconsistent" % (idx, bad["op"]))
         what = bad.get("what", bad["op"])
+        if bad["op"] == "fastmds":
+            what = "mds_partial_layer_fast"
         payload = {"event": _brief(bad), "spec": "spec/PoseidonRef.tla via spec/PoseidonTrace.tla"}
         if bad["op"] == "real":
             ch = out_rows[bad["ref"] - 1]
@@ -128,8 +131,30 @@ def run(chk, tier):
         rejected_kinds.add((bad["op"], bad.get("what")))
     else:
         raise ToolError("permutation log still rejected after removing 8 routines")
-    chk.evaluations += sum(1 for e in rows if e["op"] in ("real", "mds", "sbox", "const"))
-    chk.nontrivial += len({json.dumps(e["in"]) for e in rows if e["op"] in ("ref", "mds", "sbox", "const")})
+    chk.evaluations += sum(1 for e in rows if e["op"] in ("real", "mds", "sbox", "const", "fastmds"))
+    chk.nontrivial += len({json.dumps(e["in"]) for e in rows if e["op"] in ("ref", "mds", "sbox", "const", "fastmds")})
+    # carry-boundary states of the 160-bit accumulator of mds_partial_layer_fast: every (round, term position)
+    # just carrying / just not carrying, directly and inside partial_rounds / poseidon (earlier rounds inverted)
+    for fl in ["release", "avx2"]:
+        cb = common.vh(["carry-boundary"], flavour=fl, binname="c13", timeout=900)[-1]
+        if cb["uncovered"]:
+            raise ToolError("carry-boundary generator is vacuous at %d accumulation site(s): %s" % (
+                len(cb["uncovered"]), json.dumps(cb["uncovered"][:4])))
+        if cb["in_permutation_exact_hits"] != cb["in_permutation_states"]:
+            raise ToolError("inversion of the earlier rounds does not reproduce the boundary states (%d of %d)" % (
+                cb["in_permutation_exact_hits"], cb["in_permutation_states"]))
+        chk.evaluations += cb["direct_states"] + 4 * cb["in_permutation_states"]
+        chk.nontrivial += cb["cases"]
+        chk.extra.setdefault("carry_boundary", {})[fl] = {k: v for k, v in cb.items() if k not in ("mismatches", "uncovered", "kind")}
+        for m in cb["mismatches"]:
+            rt = m["routine"] if isinstance(m["routine"], str) else m["routine"][0]
+            if rt.startswith("harness inversion"):
+                raise ToolError("carry-boundary: " + json.dumps(m)[:600])
+            chk.violation("C13/perm-carry/%s/%s" % (fl, rt),
+                          "real routine differs from the textbook permutation on a carry-boundary state of the delayed-reduction "
+                          "accumulator (round %s, term %s, %s)" % (m.get("round"), m.get("term"), m.get("kind")), {"case": m, "flavour": fl})
+    chk.canary("the carry-boundary generator reaches every reachable accumulation site (vacuity guard)",
+               chk.extra["carry_boundary"]["release"]["sites_fully_covered_required"] >= 150)
     # bulk: the validated textbook implementation as oracle
     flavours = ["release", "avx2"] + (["avx512"] if thorough else [])
     for fl in flavours:
@@ -157,6 +182,14 @@ def run(chk, tier):
     common.write_ndjson(canp, [chain2])
     r2 = common.tlc("PoseidonTrace", cfg="PoseidonTrace", workers=1, timeout=300, env={"TRACE": canp}, tag="c13canary2")
     chk.canary("a corrupted layer of the textbook chain is rejected by TLC", r2.violated is not None)
+    fm = json.loads(json.dumps(next(e for e in rows if e["op"] == "fastmds")))
+    p_ = 0xFFFFFFFF00000001
+    v0 = (sum(b << (8 * i) for i, b in enumerate(fm["out"][0])) + (1 << 32)) % p_      # 2^128 = -2^32 (mod p)
+    fm["out"][0] = [(v0 >> (8 * i)) & 255 for i in range(8)]
+    common.write_ndjson(canp, [fm])
+    r3 = common.tlc("PoseidonTrace", cfg="PoseidonTrace", workers=1, timeout=300, env={"TRACE": canp}, tag="c13canary2b")
+    chk.canary("a mds_partial_layer_fast output with one carry of the 160-bit accumulator dropped is rejected by TLC",
+               r3.violated is not None)
     # ------------------------------------------------------------------ B: sponge scenarios
     rv = common.tlc("MCSpongeVec", cfg="MCSpongeVec", workers=2, timeout=300)
     chk.add_tlc("MCSpongeVec (hash vectors at RATE 8 / WIDTH 12)", rv)
